@@ -19,6 +19,9 @@ def run(chk):
     r13c(chk)
     r13d(chk)
     r13e(chk)
+    from .c10 import r10e
+
+    r10e(chk, 'R13.g')
     if chk.tier == 'thorough':
         profile_eda(chk, 'R13.f')
 
